@@ -96,7 +96,7 @@ impl<T: Float, B: AutodiffBackend> GradientTarget<T, B> for Funnel {
         let v = x.clone().slice([0..1]);
         let rest = x.slice([1..d]);
         let ss = (rest.clone() * rest).sum();
-        v.clone().powi_scalar(2).div_scalar(-18.0) - (v.clone().neg().exp() * ss).mul_scalar(0.5) - v.mul_scalar(0.5 * (d - 1) as f64)
+        v.clone().powi_scalar(2).mul_scalar(-1.0 / 18.0) - (v.clone().neg().exp() * ss).mul_scalar(0.5) - v.mul_scalar(0.5 * (d - 1) as f64)
     }
 }
 #[derive(Clone)]
